@@ -266,9 +266,13 @@ class EvalMixin:
             if isinstance(op, ast.Div):
                 if not self.spec: self.oblige(st, b.t != 0, "division-by-zero", node)
                 return SV(T.Real, self.coerce(a, T.Real).t / self.coerce(b, T.Real).t)
-            if isinstance(op, ast.Mod) and a.ty == T.Int:
+            if isinstance(op, (ast.Mod, ast.FloorDiv)) and a.ty == T.Int:
                 if not self.spec: self.oblige(st, b.t != 0, "division-by-zero", node)
-                return SV(T.Int, a.t % b.t)
+                # Python: the remainder takes the sign of the divisor (SMT-LIB mod is always non-negative), a // b = floor(a / b)
+                m = a.t % b.t
+                pm = z3.If(z3.Or(b.t > 0, m == 0), m, m + b.t)
+                if isinstance(op, ast.Mod): return SV(T.Int, pm)
+                return SV(T.Int, (a.t - pm) / b.t)
         raise VCError("binop %s on %s,%s (line %s)" % (type(op).__name__, a.ty, b.ty, getattr(node, "lineno", "?")))
 
     def list_concat(self, st, a, b):
